@@ -21,6 +21,18 @@ CHECKS = {
             "DESIGN.md section 6, C13"),
 }
 
+CHECKS["C02"] = ("model_checking",
+    "CRC24.tla defines the parity code by bitwise long division. TLC checks on the spec that every 1-bit and 2-bit "
+    "error pattern of 56- and 112-bit frames and every burst up to MaxBurst has a non-zero syndrome, that the division "
+    "step is a bijection (the lemma covering all bursts up to 24 bits) and linearity on sampled basis pairs. The "
+    "implementation is bound by trace validation: all 256 table entries, checksums of random frames, the accept/reject "
+    "decision for valid DF17 frames and for all 112 + 6216 one/two-bit corruptions and sampled bursts of each base frame, "
+    "and the address recovered from AP-format frames, each judged by TLC recomputing the syndrome.",
+    "Trusted: TLC, Bitwise module, linearity of polynomial remainder beyond the sampled pairs. Frames are sampled "
+    "(seeded); error patterns per frame and the table are exhaustive.",
+    "TLA+ CRC spec by long division + TLC model checking of error-pattern classes + trace validation of table, checksums and decode decisions",
+    "DESIGN.md section 6, C02")
+
 PENDING_REASON = "check under construction in this session (see DESIGN.md section 6 for the planned TLA+ design); not claimed until it runs clean"
 
 
